@@ -42,6 +42,7 @@ class SigV:
 @dataclass
 class BunV:
     members: dict  # type -> value ; implicit members under key ("implicit", id)
+    dynamic: bool = False  # contents not known statically (entity output or derived from one): merging adds
 
 
 @dataclass
@@ -307,9 +308,9 @@ class Sem:
                 raise Rejected("bare bundle comparison")
             if isinstance(l, BunV):
                 b = self.num(r)
-                return BunV({t: self._each(op, v, b) for t, v in l.members.items()})
+                return BunV({t: self._each(op, v, b) for t, v in l.members.items()}, l.dynamic)
             a = self.num(l)
-            return BunV({t: self._each_rev(op, a, v) for t, v in r.members.items()})
+            return BunV({t: self._each_rev(op, a, v) for t, v in r.members.items()}, r.dynamic)
         if isinstance(l, IntV) and isinstance(r, IntV):
             return IntV(self._const(op, l.v, r.v))
         if not isinstance(l, (IntV, SigV)) or not isinstance(r, (IntV, SigV)):
@@ -408,7 +409,7 @@ class Sem:
                         res[t] = B.ite(keep, out.v, B.const(0))
                     else:
                         raise SemError("filter output")
-                return BunV(res)
+                return BunV(res, l.dynamic)
         c = None
         if not self._is_comparison(cond):
             c = self.expr(cond, env)
@@ -432,11 +433,12 @@ class Sem:
         if isinstance(out, SigV):
             return SigV(out.type, B.ite(truth, out.v, B.const(0)), out.implicit_id)
         if isinstance(out, BunV):
-            return BunV({t: B.ite(truth, v, B.const(0)) for t, v in out.members.items()})
+            return BunV({t: B.ite(truth, v, B.const(0)) for t, v in out.members.items()}, out.dynamic)
         raise SemError("output value")
 
     def x_BundleLiteral(self, e, env):
         members = {}
+        dyn_keys = set()
         for el in e.elements:
             v = self.expr(el, env)
             if isinstance(v, BunV):
@@ -446,11 +448,19 @@ class Sem:
                 items = [(key, v.v)]
             else:
                 raise Rejected("bundle element must be a signal or bundle")
+            dyn = isinstance(v, BunV) and v.dynamic
             for t, val in items:
                 if t in members:
-                    raise Rejected(f"duplicate signal type {t} in bundle")
-                members[t] = val
-        return BunV(members)
+                    # statically known duplicates are a compile error; contents that are only known at run time
+                    # (entity outputs) simply add on the wire
+                    if not (dyn or t in dyn_keys):
+                        raise Rejected(f"duplicate signal type {t} in bundle")
+                    members[t] = self.B.arith("+", members[t], val)
+                else:
+                    members[t] = val
+                if dyn:
+                    dyn_keys.add(t)
+        return BunV(members, bool(dyn_keys))
 
     def x_BundleSelectExpr(self, e, env):
         b = self.expr(e.bundle, env)
@@ -524,7 +534,7 @@ class Sem:
         if not isinstance(ent, EntV):
             raise Rejected("undefined entity")
         self.consumed.add(e.entity_name)
-        return BunV(dict(self.entity_outputs.get(e.entity_name, {})))
+        return BunV(dict(self.entity_outputs.get(e.entity_name, {})), True)
 
     def x_PropertyAccessExpr(self, e, env):
         if e.property_name == "output":
